@@ -405,13 +405,14 @@ func peerCtx(sender, n int) context.Context {
 	return metadata.NewIncomingContext(ctx, metadata.Pairs("id", strconv.Itoa(sender)))
 }
 
-func c10Prop(c c10Case) common.Result {
+func c10Prop(c c10Case) (verdict common.Result) {
 	cfg := Config{N: 4, Rules: c.Rules, Crypto: c.Crypto, Cache: c.Cache, Batch: 1, Latency: c.Latency}
 	cl, err := New(cfg)
 	if err != nil {
 		return common.Fail("harness", "cluster: %v", err)
 	}
 	defer cl.Close()
+	defer func() { verdict = cl.Verdict("C10", verdict) }()
 	cl.Start()
 	for i := 0; i < c.Warm; i++ {
 		if len(cl.deliverable()) > 0 {
